@@ -138,7 +138,7 @@ PBatch(cf, ps, ms, parts) ==
 (* ---------------- consumer mock ----------------
    Partition consumers live in four slots: topic "tc" partitions 0, 1 = slots 0, 1 and topic "td"
    partitions 0, 1 = slots 2, 3; slot 9 = ("tc", partition 9) is never registered.
-   pc = [reg, eoff (expected offset, AnyOff = any), consumed, yields / nerr (messages / errors
+   pc = [reg, eoff (expected offset, AnyOff = any), consumed, feed / cap (feeder, see CFeed), yields / nerr (messages / errors
          yielded so far), mq (pending messages: Seq([mid, off])), eq (pending error ids), dm, de (drain expectations),
          closed (channels closed)]                                                       *)
 AnyOff == -1000
@@ -147,7 +147,7 @@ CNever == 9
 CTopicOf(s) == IF s \in {2, 3} THEN "td" ELSE "tc"
 CPartOf(s) == IF s = CNever THEN 9 ELSE s % 2
 PC0 == [reg |-> FALSE, eoff |-> 0, consumed |-> FALSE, yields |-> 0, nerr |-> 0, mq |-> <<>>, eq |-> <<>>,
-        dm |-> FALSE, de |-> FALSE, closed |-> FALSE]
+        dm |-> FALSE, de |-> FALSE, closed |-> FALSE, feed |-> 0, cap |-> 0]
 CInit == [p \in CParts |-> PC0]
 
 CRes(cs, ret, rep) == [cs |-> cs, ret |-> ret, rep |-> rep, val |-> <<>>, errs |-> <<>>]
@@ -172,9 +172,22 @@ CConsume(cs, p, off) ==
   ELSE CRes([cs EXCEPT ![p].consumed = TRUE], "ok",
             IF cs[p].eoff # AnyOff /\ cs[p].eoff # off THEN <<"unexpected_offset">> ELSE <<>>)
 
+(* A feeder goroutine yields `feed` messages one after the other through a channel with `cap` buffer
+   slots (Config.ChannelBufferSize).  YieldMessage counts the message (high-water mark) and stamps
+   its offset BEFORE the channel send, so whenever the feeder is at rest - blocked in the send of a
+   message or finished - the messages started are the received ones + cap buffered + 1 in flight
+   (at most feed); `yields` counts the started ones, mq holds the started and not yet received.   *)
+MidOf0(p, k) == 10 * p + k
+CAdvance(pc, p) ==
+  LET upto == IF pc.feed < pc.yields + (pc.cap + 1 - Len(pc.mq)) THEN pc.feed ELSE pc.yields + (pc.cap + 1 - Len(pc.mq))
+  IN [pc EXCEPT !.yields = upto,
+                !.mq = @ \o [k \in 1..(upto - pc.yields) |-> [mid |-> MidOf0(p, pc.yields + k), off |-> pc.yields + k]]]
+CFeed(cs, p, n, cap) == CRes([cs EXCEPT ![p] = CAdvance([@ EXCEPT !.feed = n, !.cap = cap], p)], "ok", <<>>)
+
 CReadMsg(cs, p) ==
-  LET h == Head(cs[p].mq) IN
-  [CRes([cs EXCEPT ![p].mq = Tail(@)], "ok", <<>>) EXCEPT !.val = <<h.mid, h.off, p>>]
+  LET h == Head(cs[p].mq)
+      pc1 == [cs[p] EXCEPT !.mq = Tail(@)]
+  IN [CRes([cs EXCEPT ![p] = IF pc1.feed > 0 THEN CAdvance(pc1, p) ELSE pc1], "ok", <<>>) EXCEPT !.val = <<h.mid, h.off, p>>]
 CReadErr(cs, p) ==
   [CRes([cs EXCEPT ![p].eq = Tail(@)], "ok", <<>>) EXCEPT !.errs = <<Head(cs[p].eq)>>]
 
